@@ -15,6 +15,19 @@ CLAIMED = {
          "TLC decides ExifArgs/XmpBytes/Resync/AbsOff/AllFound/NoFalse/InOrder/Progress/Terminates for all marker sequences up to the bound x XMP consumption x lead; each terminal state is replayed (callback headers, bytes readable inside callbacks, EOF position of the XMP reader, stream position after DQT), and every recorded execution must be a behaviour of the spec with equal offsets at every marker/callback event.",
          "Trusted: TLC, the JPEG writer (gen/jpeg.go), the jpeg hooks. Well-formed streams only (the property's domain); the Exif callback consumes its declared length.",
          "DESIGN.md section 4 C10"),
+
+ "C03": ("TLA+ spec Exif (forward-only IFD reader: sorted pending list, position bookkeeping, three hand-off variants) model-checked by TLC; every terminal state (logical record x forward layout x padding x IFD0 offset x variant, plus pending-list pressure 80-85 tags) concretised to TIFF bytes in both byte orders with seeded in-range values and replayed on Decode/DecodeTiff/Parse/ScanTiffHeader+DecodeTiff/DecodeJPEG/DecodeIfd; reported fields compared with the record the specification says is reported",
+         "TLC decides Sorted/Forward/NoStaleIdx/PosInv/NoDropWF/Exact/DropsOnlyFull/Progress for every record of up to MaxPick entries over one representative per encoding class and directory, in every forward block order; the concretiser binds classes to real tags (all supported fields over seeds) and the real decoders must report exactly the expected record (exact for integers/strings/timestamps incl. sub-seconds and zone, float32/float64 precision for rationals).",
+         "Trusted: TLC, the TIFF writer and value binding (gen/tiff.go, written from TIFF 6.0/Exif 2.31), the comparison code. Records larger than MaxPick (2 quick, 3 thorough) only with foreign filler; values > 1000 bytes, shared value blocks and reverse layouts are outside the domain. No hook trace for exif2 yet (binding is by replay of generated cases).",
+         "DESIGN.md section 4 C03"),
+ "C06": ("TLA+ spec Exif (hand-off variants tiff/jpeg/ifd with PosInv) model-checked by TLC; each generated payload embedded UNCHANGED by independent container writers in TIFF, JPEG APP1, PNG eXIf, CR3 CMT1 (and split CMT1/CMT2/CMT4), HEIF with three levels of surrounding content (incl. 64-bit box sizes) and replayed on every decode entry point; results compared with the specified record, pairwise with the bare TIFF, and image type with the container",
+         "For every TLC-generated (record, forward layout) in both byte orders: fields(decode(c(p))) equals the specified record and equals fields(decode(TIFF(p))) for c in {JPEG, PNG, CR3, CR3-split, HEIF} and entry points Decode, DecodeJPEG, DecodeTiff, DecodePng, DecodeCR3, DecodeHeif, exif2.Parse, isobmff.Reader+DecodeIfd; ImageType is the container's.",
+         "Trusted: the container writers (gen/containers.go, from the format documents), TLC. Surroundings carry no TIFF signature before the payload (HEIF is found by signature search). AVIF item path (iinf/iloc/mdat) is not part of the property's container list and is explored separately.",
+         "DESIGN.md section 4 C06"),
+ "C07": ("TLA+ spec Exif is parametric in byte order (Expected does not mention it); every TLC-generated case is concretised twice (II and MM) from the same abstract layout and value binding, embedded in every container, and the two decodes compared field by field (and with the specified record)",
+         "For every generated record/layout/container/entry point: decode(II) == decode(MM) on every field, for all embedded classes (BYTE, ASCII 1-3 chars, SHORT, LONG) and out-of-line classes; a one-sided error (one order fails, the other decodes) is a violation.",
+         "Trusted: the TIFF writer's two encoders share everything but binary.ByteOrder. Same bounds as C03/C06.",
+         "DESIGN.md section 4 C07"),
 }
 NOT_APPLICABLE = {
  "C18": "Bit-for-bit equality of AVX and Go float32 DCT kernels and their error bound against the real DCT-II are IEEE-754 statements over 2^(32*64) inputs; TLA+/TLC has no floating point and the kernels have no state machine to specify (DESIGN.md section 5).",
